@@ -50,6 +50,13 @@ func c10Run(r *zsim.Run) {
 		nops = 11000 + o.Intn(2000)
 	}
 	keys := []string{"a", "b", "c", "d"}
+	if !long && o.Intn(5) == 0 {
+		// many keys: more pending tasks than the drain function has workers
+		keys = []string{"a", "b", "c", "d", "e", "f", "g", "h", "i", "j", "k", "l", "m", "n"}
+		if nops < 20 {
+			nops += 14
+		}
+	}
 	var fired []c10Fire
 	tickOf := func() int { return int(r.Now() / interval) }
 	// some runs have slow callbacks: the tasks of one tick run one after the other in their own goroutine, so a slow
@@ -101,6 +108,7 @@ func c10Run(r *zsim.Run) {
 	}
 	stopped := false
 	drained := false
+	stoppedAfterDrain := false
 	for i := 0; i < nops && !r.Failed(); i++ {
 		k := keys[o.Intn(len(keys))]
 		if long {
@@ -200,14 +208,27 @@ func c10Run(r *zsim.Run) {
 	switch ending {
 	case 1: // Drain: every pending task is handed over exactly once, none fires afterwards
 		T := tickOf()
+		slowDrain := o.Intn(3) == 0
 		err := tw.Drain(func(k, v any) {
 			fired = append(fired, c10Fire{k.(string), v.(int), tickOf(), true})
 			r.Logf("drained %v=%v", k, v)
+			if slowDrain {
+				zsim.Sleep(interval / 4)
+			}
 		})
 		r.Logf("drain at tick %d -> %v", T, err)
 		if err != nil {
 			r.Failf("drain-error", "Drain on a running wheel returned %v", err)
 			return
+		}
+		if slowDrain && o.Intn(2) == 0 {
+			// the usual shutdown sequence: Drain, then Stop at once - the accepted Drain still hands over everything
+			tw.Stop()
+			stoppedAfterDrain = true
+			r.Probe("stop_right_after_drain")
+		}
+		if slowDrain {
+			zsim.Sleep(20 * interval)
 		}
 		r.Quiesce()
 		for k, p := range model {
@@ -248,7 +269,7 @@ func c10Run(r *zsim.Run) {
 		}
 		r.Quiesce()
 	}
-	if ending != 2 {
+	if ending != 2 && !stoppedAfterDrain {
 		tw.Stop()
 	}
 	c10Compare(r, expect, fired, removedEver, stopped)
